@@ -18,7 +18,7 @@ import cmath
 import math
 from abc import ABCMeta, abstractmethod
 from io import BytesIO
-from typing import Any, Optional, TypeVar, cast
+from typing import Any, Optional, Tuple, TypeVar, cast
 
 import numpy as np
 
@@ -634,6 +634,22 @@ class Rectangle(Shape):
                                     min(first.imag, second.imag))
         self._upper_coord = complex(max(first.real, second.real),
                                     max(first.imag, second.imag))
+        # The two coordinates above are absolute: remember the position
+        # they refer to, so that they can follow if `pos` is changed later
+        self._corners_pos = central_pos
+
+    def _get_corners(self) -> Tuple[complex, complex]:
+        """
+        Get the lower left and the upper right corners (without rotation)
+        for the current position of the rectangle.
+
+        Returns
+        -------
+        (complex, complex)
+            The lower left and the upper right corners.
+        """
+        shift = self.pos - self._corners_pos
+        return self._lower_coord + shift, self._upper_coord + shift
 
     def __repr__(self) -> str:  # pragma: no cover
         """
@@ -661,8 +677,9 @@ class Rectangle(Shape):
             The positions of the vertexes of the shape.
         """
         vertex_positions: np.ndarray = np.zeros(4, dtype=complex)
-        A = self._lower_coord - self.pos
-        B = self._upper_coord - self.pos
+        lower_coord, upper_coord = self._get_corners()
+        A = lower_coord - self.pos
+        B = upper_coord - self.pos
         vertex_positions[0] = A
         vertex_positions[1] = complex(B.real, A.imag)
         vertex_positions[2] = B
@@ -709,10 +726,11 @@ class Rectangle(Shape):
         bool
             True if `point` is inside the rectangle, False otherwise.
         """
-        min_x = min(self._lower_coord.real, self._upper_coord.real)
-        max_x = max(self._lower_coord.real, self._upper_coord.real)
-        min_y = min(self._lower_coord.imag, self._upper_coord.imag)
-        max_y = max(self._lower_coord.imag, self._upper_coord.imag)
+        lower_coord, upper_coord = self._get_corners()
+        min_x = min(lower_coord.real, upper_coord.real)
+        max_x = max(lower_coord.real, upper_coord.real)
+        min_y = min(lower_coord.imag, upper_coord.imag)
+        max_y = max(lower_coord.imag, upper_coord.imag)
 
         if self.rotation != 0:
             # The corners above are the corners before rotation: undo the
